@@ -4,6 +4,10 @@
    spec agree with the classification of aspects taken from the property text (StrongExactly, FuzzyExactly,
    FuzzyIgnoresProducedContent, FuzzyFollowsProducer, NoHashWhileMissing, HashWhenComplete); every action of the
    pair generator must be covered.
+   The family includes "naming" base worlds: a bystander component with its own executable/argument in the stage of the
+   (replicated) deepest component, under replica-like naming schemes (replicas gen10, gen11 of `gen1` next to `gen`; `gen12`
+   next to `gen1`; replicas of `gen` next to `gen7`), replicated or not; perturbations ChangeSiblingExecutable/-Literal move
+   the bystander's hash only, ChangeExecutable of the replicated component moves the hashes of its replicas.
 2. spec -> code: every pair (a, b, aspect) emitted by TLC is rendered to two real packages, instantiated in two
    different directories (different instance names, time stamps, file times), the consumed files are written with
    the contents the worlds give, and ComponentSpecification.memoization_hash / memoization_hash_fuzzy of EVERY
